@@ -439,6 +439,20 @@ func (g Gctx) col(v V) interface{} {
 	if v.T == "VQStr" {
 		return v.S
 	}
+	if v.T == "VSeq" && len(v.L) == 3 { // "(" cols ")": several columns
+		if v.Go == "[]string" {
+			out := []string{}
+			for _, c := range v.L[1].L {
+				out = append(out, c.S2)
+			}
+			return out
+		}
+		out := []clause.Column{}
+		for _, c := range v.L[1].L {
+			out = append(out, colOf(c))
+		}
+		return out
+	}
 	return g.val(v)
 }
 
@@ -618,7 +632,14 @@ func (g Gctx) item(fields []V) Item {
 }
 
 func (g Gctx) handleFor(in Input) *gorm.DB {
-	if len(in.Chain) > 0 && in.Chain[0].T == "VField" { // Model(&Item{ID: key})
+	if len(in.Chain) > 0 && in.Chain[0].T == "VField" { // Model(&Item{ID: key}) / Model(&[]Item{{ID: a}, ...})
+		if k := in.Chain[0].X; k.T == "VList" {
+			its := []Item{}
+			for _, e := range k.L {
+				its = append(its, Item{ID: uint(e.Sc.I)})
+			}
+			return g.db.Model(&its)
+		}
 		return g.db.Model(&Item{ID: uint(in.Chain[0].X.Sc.I)})
 	}
 	if strings.HasPrefix(in.Fin.K, "save_") { // Save sets Dest itself; Model must stay unset (Model == Dest)
